@@ -334,7 +334,7 @@ func checkSessionTypestate(p *Program, r *Report, rule string) {
 			r.Func(shortFn(rs.fn))
 			ordinal[rs.fn]++
 			construct := fmt.Sprintf("read #%d of querySession.%s in %s", ordinal[rs.fn], sf.field, shortFn(rs.fn))
-			ok := underDiscriminator(p, rs.fn, rs.ld.Block(), rs.base, sf)
+			ok := underDiscriminatorDeep(p, rs.fn, rs.ld.Block(), rs.base, sf, 0)
 			r.Check(ok, construct, p.Pos(rs.ld.Pos()), "under "+discText(sf),
 				"this read is not under "+discText(sf)+" of the same session: the field is assigned only for some nodes and sessions are reused across nodes, so it can hold a previous node's value here")
 		}
@@ -363,6 +363,46 @@ func storedBefore(ld *ssa.UnOp, field string) bool {
 		}
 	}
 	return false
+}
+
+// underDiscriminatorDeep: the block is under the discriminator in its own
+// function, or the session is a parameter and every call site of the function
+// (in package trie) is under the discriminator of the session it passes — a
+// helper that is only ever called for valid sessions.
+func underDiscriminatorDeep(p *Program, f *ssa.Function, b *ssa.BasicBlock, base ssa.Value, sf sessField, depth int) bool {
+	if underDiscriminator(p, f, b, base, sf) {
+		return true
+	}
+	prm, ok := base.(*ssa.Parameter)
+	if !ok || depth >= 2 {
+		return false
+	}
+	idx := -1
+	for i, q := range f.Params {
+		if q == prm {
+			idx = i
+		}
+	}
+	if idx < 0 {
+		return false
+	}
+	n := 0
+	for _, g := range p.FuncsOf(triePath) {
+		for _, c := range callsIn(g) {
+			if calleeOf(c) != f {
+				continue
+			}
+			n++
+			args := c.Common().Args
+			if idx >= len(args) {
+				return false
+			}
+			if !underDiscriminatorDeep(p, g, c.Block(), args[idx], sf, depth+1) {
+				return false
+			}
+		}
+	}
+	return n > 0
 }
 
 // underDiscriminator: block b is dominated by the valid edge of a branch on the discriminator.
